@@ -6,6 +6,7 @@ import JanetModel.PP.Jdn
 import JanetModel.Parse.Escape
 import JanetModel.Parse.Pos
 import JanetModel.Parse.Pure
+import JanetModel.Parse.Roundtrip
 
 namespace JanetModel.Props.C11
 open JanetModel.Parse JanetModel.PP JanetModel.Gen.Parse
@@ -216,6 +217,168 @@ theorem escape_roundtrip (scan : List B → Option String) (args : List Value) (
   simp only [Option.bind_some]
   rw [steps_cons_ok scan _ _ _ _ h2 herr]
   simp [steps]
+
+/-- the same for buffers: `@"` ... `"` yields `Value.buf bs` -/
+theorem escape_roundtrip_buffer (scan : List B → Option String) (args : List Value) (rest : List Frame) (line column pending : Nat)
+    (lookback : Int) (flag : Nat) (top : Frame) (htop : top.consumer = .root) (bs : List B) :
+    ∃ cnt an, steps scan ⟨args, none, top :: rest, [], line, column, pending, lookback, flag⟩ (64 :: escapeString bs) =
+      some (popstate ⟨args, none, strFrame ⟨0, 0, PFLAG_BUFFER ||| PFLAG_STRING, line, column, .stringchar⟩ cnt an .stringchar :: top :: rest, [],
+              line, column, pending, lookback, flag⟩ (Value.buf bs)) ∧
+      (popstate ⟨args, none, strFrame ⟨0, 0, PFLAG_BUFFER ||| PFLAG_STRING, line, column, .stringchar⟩ cnt an .stringchar :: top :: rest, [],
+              line, column, pending, lookback, flag⟩ (Value.buf bs)).error = none := by
+  have ha : step scan ⟨args, none, top :: rest, [], line, column, pending, lookback, flag⟩ 64 =
+      (⟨args, none, ⟨0, 0, PFLAG_ATSYM, line, column, .atsign⟩ :: top :: rest, [], line, column, pending, lookback, flag⟩, true) := by
+    simp [step, htop, root, pushstate]
+  have h0 : step scan ⟨args, none, ⟨0, 0, PFLAG_ATSYM, line, column, .atsign⟩ :: top :: rest, [], line, column, pending, lookback, flag⟩ 34 =
+      (⟨args, none, strFrame ⟨0, 0, PFLAG_BUFFER ||| PFLAG_STRING, line, column, .stringchar⟩ 0 0 .stringchar :: top :: rest, [], line, column, pending, lookback, flag⟩, true) := by
+    simp [step, atsign, pushstate, strFrame]
+  obtain ⟨c1, a1, h1⟩ := escape_body_steps scan args (top :: rest) line column pending lookback flag
+    ⟨0, 0, PFLAG_BUFFER ||| PFLAG_STRING, line, column, .stringchar⟩ bs [] 0 0
+  have h2 : step scan ⟨args, none, strFrame ⟨0, 0, PFLAG_BUFFER ||| PFLAG_STRING, line, column, .stringchar⟩ c1 a1 .stringchar :: top :: rest, [] ++ bs,
+        line, column, pending, lookback, flag⟩ 34 =
+      (popstate ⟨args, none, strFrame ⟨0, 0, PFLAG_BUFFER ||| PFLAG_STRING, line, column, .stringchar⟩ c1 a1 .stringchar :: top :: rest, [],
+              line, column, pending, lookback, flag⟩ (Value.buf bs), true) := by
+    have f1 : hasFlag (PFLAG_BUFFER ||| PFLAG_STRING) PFLAG_LONGSTRING = false := by decide
+    have f2 : hasFlag (PFLAG_BUFFER ||| PFLAG_STRING) PFLAG_BUFFER = true := by decide
+    simp [step, strFrame, stringchar, stringend, f1, f2]
+  have herr : (popstate ⟨args, none, strFrame ⟨0, 0, PFLAG_BUFFER ||| PFLAG_STRING, line, column, .stringchar⟩ c1 a1 .stringchar :: top :: rest, [],
+              line, column, pending, lookback, flag⟩ (Value.buf bs)).error = none := by
+    simp [popstate]
+  refine ⟨c1, a1, ?_, herr⟩
+  have e : escapeString bs = 34 :: (escapeBody bs ++ [34]) := by simp [escapeString]
+  rw [e, steps_cons_ok scan _ _ _ _ ha rfl, steps_cons_ok scan _ _ _ _ h0 rfl, steps_append, h1]
+  simp only [Option.bind_some]
+  rw [steps_cons_ok scan _ _ _ _ h2 herr]
+  simp [steps]
+
+/-! ## `%j` round trip, atoms and strings (`jdn_roundtrip_partial`)
+
+The statements below are about the consume loop itself (`eats` = the `while (!consumed)` loop byte after byte, failing on any
+latched error), in ANY context where a value may start: `top` is a frame handled by `root` (top level, any container, after a
+reader macro), arbitrary argument stack and frames below.  `popstate` is where the parser delivers a finished value
+(it pushes it on the enclosing container / wraps it for the root queue / applies pending reader macros).
+
+**Gap to the full `jdn_roundtrip : parse (jdn v) = [v]`** (tested on the implementation, not proved): the induction over tuples /
+arrays / structs / tables.  It needs (i) `popstate`/`closeDelim` accounting on the argument stack (available: `popstateAux_spec`,
+`takeArgs`), (ii) for every printed item the fact that it is followed by a space or a closing delimiter -- the look-ahead lemma
+`token_roundtrip` below is stated for an arbitrary delimiter precisely for that -- and (iii) for dictionaries, that `structPut` /
+`tablePut` over distinct keys rebuild the association list, plus symbols that start with `@` (they go through `atsign`). -/
+
+/-- strings: `jdn` prints `escapeString`, which reads back as the string -/
+theorem jdn_roundtrip_string (scan : List B → Option String) (fmt : String → Option (List B)) (depth : Nat) (bs : List B)
+    (args : List Value) (top : Frame) (rest : List Frame) (line column pending : Nat) (lb : Int) (flag : Nat) (htop : top.consumer = .root) :
+    ∃ T, jdn scan fmt (depth + 1) (.str bs) = some T ∧ ∃ cnt an,
+      eats scan ⟨args, none, top :: rest, [], line, column, pending, lb, flag⟩ T =
+        some (popstate ⟨args, none, strFrame ⟨0, 0, PFLAG_STRING, line, column, .stringchar⟩ cnt an .stringchar :: top :: rest, [],
+          line, column, pending, lb, flag⟩ (Value.str bs)) := by
+  refine ⟨escapeString bs, by simp [jdn], ?_⟩
+  obtain ⟨c, a, h, _⟩ := escape_roundtrip scan args rest line column pending lb flag top htop bs
+  exact ⟨c, a, eats_of_steps scan _ _ _ rfl h⟩
+
+theorem jdn_roundtrip_buffer (scan : List B → Option String) (fmt : String → Option (List B)) (depth : Nat) (bs : List B)
+    (args : List Value) (top : Frame) (rest : List Frame) (line column pending : Nat) (lb : Int) (flag : Nat) (htop : top.consumer = .root) :
+    ∃ T, jdn scan fmt (depth + 1) (.buf bs) = some T ∧ ∃ cnt an,
+      eats scan ⟨args, none, top :: rest, [], line, column, pending, lb, flag⟩ T =
+        some (popstate ⟨args, none, strFrame ⟨0, 0, PFLAG_BUFFER ||| PFLAG_STRING, line, column, .stringchar⟩ cnt an .stringchar :: top :: rest, [],
+          line, column, pending, lb, flag⟩ (Value.buf bs)) := by
+  refine ⟨64 :: escapeString bs, by simp [jdn], ?_⟩
+  obtain ⟨c, a, h, _⟩ := escape_roundtrip_buffer scan args rest line column pending lb flag top htop bs
+  exact ⟨c, a, eats_of_steps scan _ _ _ rfl h⟩
+
+/-- keywords: if `%j` prints the keyword (it refuses bad ones), then text + any delimiter delivers that keyword -/
+theorem jdn_roundtrip_keyword (scan : List B → Option String) (fmt : String → Option (List B)) (depth : Nat) (ks T : List B)
+    (hj : jdn scan fmt (depth + 1) (.kw ks) = some T)
+    (args : List Value) (top : Frame) (rest : List Frame) (line column pending : Nat) (lb : Int) (flag : Nat) (htop : top.consumer = .root)
+    (d : B) (hd : isSymbolChar d = false) :
+    eats scan ⟨args, none, top :: rest, [], line, column, pending, lb, flag⟩ (T ++ [d]) =
+      eat scan (popstate ⟨args, none, tokFrame line column (naAcc 0 ks) :: top :: rest, [], line, column, pending, lb, flag⟩ (.kw ks)) d := by
+  have hbad : containsBadChars scan ks false = false := by
+    cases h : containsBadChars scan ks false with
+    | false => rfl
+    | true => simp [jdn, h] at hj
+  have hT : T = 58 :: ks := by simp [jdn, hbad] at hj; exact hj.symm
+  have hall : ks.all isSymbolChar = true := by
+    unfold containsBadChars at hbad
+    simp only [Bool.or_eq_false_iff] at hbad
+    simpa using hbad.2
+  subst hT
+  have h58 : rootStartsToken 58 = true := by decide
+  have := token_roundtrip scan args top rest line column pending lb flag 58 ks d (.kw ks) htop h58 hall hd
+    (classify_keyword scan ks _ hbad)
+  simpa using this
+
+/-- symbols (not starting with `@`): if the fixed `%j` prints the symbol, then text + any delimiter delivers that symbol -/
+theorem jdn_roundtrip_symbol (scan : List B → Option String) (fmt : String → Option (List B)) (depth : Nat) (b : B) (bs T : List B)
+    (hj : jdn scan fmt (depth + 1) (.sym (b :: bs)) = some T) (hat : b ≠ 64)
+    (args : List Value) (top : Frame) (rest : List Frame) (line column pending : Nat) (lb : Int) (flag : Nat) (htop : top.consumer = .root)
+    (d : B) (hd : isSymbolChar d = false) :
+    eats scan ⟨args, none, top :: rest, [], line, column, pending, lb, flag⟩ (T ++ [d]) =
+      eat scan (popstate ⟨args, none, tokFrame line column (naAcc (if b > 127 then 1 else 0) bs) :: top :: rest, [],
+        line, column, pending, lb, flag⟩ (.sym (b :: bs))) d := by
+  have hbad : containsBadChars scan (b :: bs) true = false := by
+    cases h : containsBadChars scan (b :: bs) true with
+    | false => rfl
+    | true => simp [jdn, h] at hj
+  have hT : T = b :: bs := by simp [jdn, hbad] at hj; exact hj.symm
+  have hall : (b :: bs).all isSymbolChar = true := by
+    unfold containsBadChars at hbad
+    simp only [Bool.or_eq_false_iff] at hbad
+    simpa using hbad.2
+  subst hT
+  simp only [List.all_cons, Bool.and_eq_true] at hall
+  have hb : rootStartsToken b = true := by simp [rootStartsToken, hall.1, hat]
+  exact token_roundtrip scan args top rest line column pending lb flag b bs d (.sym (b :: bs)) htop hb hall.2 hd
+    (classify_symbol scan (b :: bs) _ hbad)
+
+/-- nil / true / false -/
+theorem jdn_roundtrip_const (scan : List B → Option String) (fmt : String → Option (List B)) (depth : Nat) (v : Value)
+    (hv : v = .nil ∨ v = .bool true ∨ v = .bool false)
+    (args : List Value) (top : Frame) (rest : List Frame) (line column pending : Nat) (lb : Int) (flag : Nat) (htop : top.consumer = .root)
+    (d : B) (hd : isSymbolChar d = false) :
+    ∃ T, jdn scan fmt (depth + 1) v = some T ∧
+      eats scan ⟨args, none, top :: rest, [], line, column, pending, lb, flag⟩ (T ++ [d]) =
+        eat scan (popstate ⟨args, none, tokFrame line column 0 :: top :: rest, [], line, column, pending, lb, flag⟩ v) d := by
+  rcases hv with h | h | h <;> subst h
+  · refine ⟨nilBytes, by simp [jdn], ?_⟩
+    exact token_roundtrip scan args top rest line column pending lb flag 110 [105, 108] d .nil htop (by decide) (by decide) hd
+      (classify_nil scan _)
+  · refine ⟨trueBytes, by simp [jdn], ?_⟩
+    exact token_roundtrip scan args top rest line column pending lb flag 116 [114, 117, 101] d (.bool true) htop (by decide) (by decide) hd
+      (classify_true scan _)
+  · refine ⟨falseBytes, by simp [jdn], ?_⟩
+    exact token_roundtrip scan args top rest line column pending lb flag 102 [97, 108, 115, 101] d (.bool false) htop (by decide) (by decide) hd
+      (classify_false scan _)
+
+/-- numbers, abstractly: whenever the formatter's text `c :: cs` for `tag` is a number-looking token on which the scanner
+    returns `tag` again -- C13's `scan (print17 x) = x` is exactly the hypothesis `hscan` -- text + any delimiter delivers `num tag` -/
+theorem jdn_roundtrip_number (scan : List B → Option String) (fmt : String → Option (List B)) (depth : Nat) (tag : String) (c : B) (cs : List B)
+    (hj : jdn scan fmt (depth + 1) (.num tag) = some (c :: cs))
+    (hscan : scan (c :: cs) = some tag)
+    (hstart : (48 ≤ c.toNat && c.toNat ≤ 57 || c == 45 || c == 43 || c == 46) = true)
+    (hsym : rootStartsToken c = true ∧ cs.all isSymbolChar = true)
+    (args : List Value) (top : Frame) (rest : List Frame) (line column pending : Nat) (lb : Int) (flag : Nat) (htop : top.consumer = .root)
+    (d : B) (hd : isSymbolChar d = false) :
+    eats scan ⟨args, none, top :: rest, [], line, column, pending, lb, flag⟩ (c :: cs ++ [d]) =
+      eat scan (popstate ⟨args, none, tokFrame line column (naAcc (if c > 127 then 1 else 0) cs) :: top :: rest, [],
+        line, column, pending, lb, flag⟩ (.num tag)) d := by
+  have hcolon : ((c :: cs).headD 0 == 58) = false := by
+    simp only [List.headD_cons]
+    rcases Bool.or_eq_true _ _ |>.mp hstart with h | h
+    · rcases Bool.or_eq_true _ _ |>.mp h with h | h
+      · rcases Bool.or_eq_true _ _ |>.mp h with h | h
+        · simp only [Bool.and_eq_true, decide_eq_true_eq] at h
+          cases hc : (c == 58) with
+          | false => rfl
+          | true => have : c = 58 := by simpa using hc
+                    subst this; simp at h
+        · have : c = 45 := by simpa using h
+          subst this; decide
+      · have : c = 43 := by simpa using h
+        subst this; decide
+    · have : c = 46 := by simpa using h
+      subst this; decide
+  exact token_roundtrip scan args top rest line column pending lb flag c cs d (.num tag) htop hsym.1 hsym.2 hd
+    (classify_number scan (c :: cs) tag _ hscan (by simpa using hstart) hcolon)
 
 /-- non-vacuity: the hypotheses are met by the initial parser, and the conclusion computes on a string with NUL, quote,
     backslash, newline, DEL and a high byte -/
